@@ -18,6 +18,8 @@ BEN = os.path.join(VERIF, 'benign')
 
 def run_one(bid, tier, nproc):
     meta = json.load(open(os.path.join(BEN, bid, 'meta.json')))
+    if meta.get('stale'):
+        return {'id': bid, 'tier': tier, 'status': 'STALE', 'detail': meta['stale'], 'checks': {}}
     tmp = tempfile.mkdtemp(prefix='vfben_')
     try:
         shutil.copytree('/repo/src', os.path.join(tmp, 'src'))
